@@ -188,7 +188,7 @@ AlgHdr(a, x) == CASE x = "own" -> Str(a) [] x = "other" -> Str(Alg2(a)) [] x = "
                   [] x = "absent" -> Absent [] x = "number" -> Other("7") [] x = "null" -> Other("null")
 KidHdrs == IF Full THEN {Absent, Str("AQIDBA"), Str("_____g"), Str("kidA"), Str("kidB"), Str("zzz"), Other("7"), Other("null")}
            ELSE {Absent, Str("AQIDBA"), Str("kidA"), Str("zzz"), Other("7")}
-Crits == IF Full THEN {"list", "empty", "null"} ELSE {"list"}
+Crits == IF Full THEN {"list", "empty", "null"} ELSE {"list", "null"}
 \* the full product without crit, plus crit in its three JSON shapes where everything else varies less
 HeaderParams(a) ==
   LET sgs == {x \in SignerShapes : x[3] = "confusion" => a \notin JWSMacAlgs} IN
